@@ -41,6 +41,11 @@ class PageFeatureProcessor:
         if page_df_height == 0:
             return page_attrs
 
+        # Row-wise attribute matrices are given for the whole table. Cut out this
+        # page's rows so that page-relative indexing below (and in _encode) binds
+        # every cell to the attributes of its original table row.
+        self._slice_attribute_rows(page_attrs, page.start_row, page_df_height)
+
         # Clear border_first and border_last from being broadcast to all rows
         if hasattr(page_attrs, "border_first") and page_attrs.border_first:
             page_attrs.border_first = None
@@ -179,6 +184,25 @@ class PageFeatureProcessor:
                     )
 
         return page_attrs
+
+    @staticmethod
+    def _slice_attribute_rows(page_attrs, start_row: int, height: int) -> None:
+        """Keep rows [start_row, start_row + height) of every multi-row attribute."""
+        for attr_name in type(page_attrs).model_fields:
+            if attr_name == "col_rel_width":
+                continue
+            value = getattr(page_attrs, attr_name, None)
+            if (
+                isinstance(value, (list, tuple))
+                and len(value) > 1
+                and isinstance(value[0], (list, tuple))
+            ):
+                row_count = len(value)
+                setattr(
+                    page_attrs,
+                    attr_name,
+                    [value[(start_row + i) % row_count] for i in range(height)],
+                )
 
     def _apply_body_border_first(self, document, page_attrs, page_df_width, page_shape):
         """Helper to apply body border_first logic."""
